@@ -588,7 +588,7 @@ def cover_part(hyps, goal, t_ms):
             break
     s.set("timeout", int(min(t_ms, 10000)))
     r = s.check()
-    st = {z3.sat: "covered", z3.unsat: "uncovered"}.get(r, "cover-unknown")
+    st = "covered" if r == z3.sat else ("uncovered" if r == z3.unsat else "cover-unknown")
     return dict(status=st, backend="z3/inst", seconds=time.time() - t0, model=None, detail="")
 
 
